@@ -121,7 +121,8 @@ def walk(graph: Graph) -> list[Node]:
             continue
         seen[id(n)] = n
         for src in n.inputs.values():
-            todo.append(src.parent)
+            if isinstance(getattr(src, "parent", None), Node):
+                todo.append(src.parent)
     return list(seen.values())
 
 
@@ -144,6 +145,11 @@ def den(node: Node, output: str | None, memo: dict | None = None, unfold=None) -
     key = (id(node), output)
     if key in memo:
         return memo[key]
+    for k, v in node.inputs.items():
+        if not (hasattr(v, "parent") and hasattr(v, "name") and isinstance(getattr(v, "parent", None), Node)):
+            from .common import Violation
+
+            raise Violation(f"input {k!r} of node {node.name!r} is wired to {v!r}, which is not an output of a node", "wired-to-non-output")
     ins = tuple(sorted((k, den(v.parent, v.name, memo, unfold)) for k, v in node.inputs.items()))
     d = (_freeze(node.payload), output, ins)
     if unfold is not None:
